@@ -182,8 +182,10 @@ func (c *concCase) solo(con int, kind concKind, mode sgMode, extraTenths, pool i
 		g.note("A", "client-done")
 	}()
 	if mode == sgPark {
-		// the predicted event: A is parked inside the persisting call (or the RPC is over)
-		if !g.wait(concLong, func() bool { return g.isParked("A", cpPersistIn) || finished() }) {
+		// the predicted event: A is parked inside the persisting call -- or the RPC is over: its renter
+		// side has returned AND its handler has let go of the contract (a renter that already has its
+		// signature returns before the handler reaches the store)
+		if !g.wait(concLong, func() bool { return g.isParked("A", cpPersistIn) || (finished() && !g.holds("A")) }) {
 			c.t.Fatalf("solo %s park: neither parked nor finished: %s", kind, concTrace(g.snapshot()))
 		}
 		g.mu.Lock()
